@@ -8,11 +8,12 @@ from harness.common import struct_hash
 from harness.ns import QNAMES
 
 ID = "C01"
-LEAN_MODULES = ["Pypika.Props.C01", "Pypika.BuilderFrame"]
+LEAN_MODULES = ["Pypika.Props.C01", "Pypika.BuilderFrame", "Pypika.DDLFrame"]
 THEOREMS = ["Pypika.C01.applyEff_inv", "Pypika.C01.recopy_inv", "Pypika.C01.builder_call_frame", "Pypika.C01.history_frame",
             "Pypika.C01.table_safe_partial", "Pypika.C01.known_argwrites_present",
-            "Pypika.B.step_frame", "Pypika.B.run_frame", "Pypika.B.step_cls"]
-AGREE = ["Pypika.Agree.writes_agree", "Pypika.Agree.methods_covered", "Pypika.Agree.setops_write_nothing"]
+            "Pypika.B.step_frame", "Pypika.B.run_frame", "Pypika.B.step_cls",
+            "Pypika.DDLB.stepC_frame"]
+AGREE = ["Pypika.Agree.writes_agree", "Pypika.Agree.methods_covered", "Pypika.Agree.setops_write_nothing", "Pypika.Agree.ddl_writes_agree"]
 TRUSTED = ["harness/effects.py: the ast pass that produces the effect table (checked against the dynamic histories below: an "
            "effect the pass missed shows up as an object that changed)", "Python: copy.copy is shallow; `self.a = self.a + [..]` builds a new list"]
 RULE = ("branching histories of 2-9 chaining calls over every builder family (10 query classes, set operations, CREATE TABLE / "
